@@ -267,8 +267,13 @@ class Tracer:
                             one.env[nm] = Val(ast.Call(func=ast.Name(id='carried', ctx=ast.Load()), args=[cur.ast], keywords=[]), tags=cur.tags)
                 each = Val(ast.Call(func=ast.Name(id='each', ctx=ast.Load()), args=[it.ast], keywords=[]), tags=it.tags)
                 self._bind(s.target, each, one, fi, s)
+                env_before = dict(one.env) if pure_acc else None
                 for r in self._block(s.body, [one], fi, depth):
                     r.loop -= 1
+                    if pure_acc:
+                        for nm, v_ in list(r.env.items()):
+                            if env_before.get(nm) is not v_ and isinstance(v_.ast, (ast.List, ast.Set)):
+                                r.env[nm] = Val(v_.ast, tags=frozenset(v_.tags) | {'maybe-empty'}, elems=v_.elems)
                     if r.status in ('break',):
                         r.status = None
                         outs.append(r)
@@ -361,7 +366,25 @@ class Tracer:
                     nxt.append(q)
                     continue
                 if self.follow_exceptions and _has_call(st) and s.handlers:
-                    exc_points.append(q.fork())
+                    # the exception is raised by a call of this statement: its calls are recorded (the statement's own
+                    # bindings do not happen), then control moves to the handlers
+                    before = q.fork()
+                    try:
+                        partial = self._stmt(st, q.fork(), fi, depth)
+                    except AnalysisError:
+                        partial = [before.fork()]
+                    seen_ev = set()
+                    for r in partial:
+                        k = tuple(id(e_.node) for e_ in r.events[len(before.events):])
+                        if k in seen_ev:
+                            continue
+                        seen_ev.add(k)
+                        r.env = dict(before.env)
+                        r.status = None
+                        r.ret = None
+                        r.facts = list(before.facts)
+                        r.events.append(Event('exc', node=st, fn=fi.qualname, depth=depth))
+                        exc_points.append(r)
                 nxt.extend(self._stmt(st, q, fi, depth))
             cur = nxt
         outs = []
@@ -551,7 +574,13 @@ class Tracer:
         if isinstance(e, ast.Attribute):
             outs = []
             for q, b in self._expr(e.value, p, fi, depth):
-                outs.append((q, Val(ast.Attribute(value=b.ast, attr=e.attr, ctx=ast.Load()), tags=b.tags)))
+                v = Val(ast.Attribute(value=b.ast, attr=e.attr, ctx=ast.Load()), tags=b.tags)
+                if not store and isinstance(b.ast, ast.Name) and b.ast.id == 'self' and fi.cls is not None:
+                    # a bound method of the same class used as a value (callback): can be inlined / traced when it is called
+                    t = self.repo.resolve(fi.cls.name, e.attr)
+                    if t is not None and not t.is_property:
+                        v.closure = (t, None)
+                outs.append((q, v))
             return outs
         if isinstance(e, ast.Subscript):
             outs = []
@@ -818,6 +847,9 @@ class Tracer:
         ev = Event('call', callee=callee, attr=attr, recv=recv, args=list(args), kw=dict(kw), node=e, fn=fi.qualname,
                    facts=tuple(p.facts), depth=depth, result=res, in_loop=p.loop > 0)
         p.events.append(ev)
+        if isinstance(f, ast.Attribute) and isinstance(f.value, ast.Name) and f.attr in ('pop', 'clear', 'remove', 'insert', 'extend', 'reverse', 'sort', 'discard', 'update') \
+                and f.value.id in p.env and isinstance(p.env[f.value.id].ast, (ast.List, ast.Set, ast.Dict)):
+            p.env[f.value.id] = Val(ast.Name(id=f.value.id, ctx=ast.Load()), tags=p.env[f.value.id].tags)
         # accumulate-by-append on a local list literal: keep the elements symbolic so that values built in a loop
         # (`flags = []; for c in xs: flags.append(c.flag)`) carry the provenance of their elements
         if isinstance(f, ast.Attribute) and f.attr in ('append', 'add') and isinstance(f.value, ast.Name) and len(args) == 1:
@@ -911,6 +943,14 @@ class _Deferred(ast.stmt):
         self.test, self.body, self.orelse = test, body, orelse
 
 
+def callback_params(t):
+    """parameters of a function value as its caller sees them (without the bound receiver)"""
+    ps = list(t.params())
+    if t.cls is not None and t.outer is None and not t.is_static and not isinstance(t.node, ast.Lambda) and ps:
+        ps = ps[1:]
+    return ps
+
+
 def _has_call(st):
     if isinstance(st, _Deferred):
         return True
@@ -926,6 +966,12 @@ def _is_generator(t):
 
 def _truth(v):
     if v.const is NOCONST:
+        if isinstance(v.ast, (ast.List, ast.Tuple, ast.Set, ast.Dict)) and 'maybe-empty' not in v.tags:
+            items = v.ast.elts if not isinstance(v.ast, ast.Dict) else v.ast.keys
+            if not items and v.elems is not None:
+                return False
+            if any(not isinstance(x, ast.Starred) and x is not None for x in items):
+                return True
         return None
     try:
         return bool(v.const)
